@@ -105,6 +105,11 @@ def _mk_schema(I, shape, name="data"):
     }
     if shape["const"]:
         I.assume(z3.Not(I.Z.rec["none"](attrs["const"].t)))
+    # pydantic's record of which keywords the document wrote on this schema (a concrete set per shape)
+    given = {"default", "description", "example"}
+    given |= {k for k in ("type", "enum", "const", "properties", "schema_format") if attrs[k] is not None}
+    given |= {k for k, v in (("allOf", allOf), ("anyOf", anyOf), ("oneOf", oneOf)) if v.items}
+    attrs["model_fields_set"] = set(given)
     return SOpaque(name, attrs=attrs, cls=oai.Schema)
 
 
